@@ -1,5 +1,5 @@
 (** Property C14 — the back end is total: the panic-site inventory of the model. *)
-From Tx3 Require Import Base Tir Reduce PlutusData Compile Compile_proofs.
+From Tx3 Require Import Base Tir Reduce PlutusData Compile Compile_proofs NoPanic.
 
 Theorem C14_hash_construction_total : forall n b s, hash_from n b <> Panic s /\ hash_from n b <> Overflow s.
 Proof. exact hash_from_no_panic. Qed.
@@ -12,7 +12,32 @@ Proof. exact int_arith_no_panic. Qed.
 Theorem C14_utxo_refs_total : forall e s, expr_into_utxo_refs e <> Panic s /\ expr_into_utxo_refs e <> Overflow s.
 Proof. exact utxo_refs_no_panic. Qed.
 
+(** the whole modelled back end: for every IR whose references carry 32-bit indices (what the
+    Rust type holds), every oracle for pallas' address functions and every set of cost models,
+    compile_tx answers with a transaction or an error - its one panic site (the look-up of an
+    input's own reference in the body) is unreachable *)
+Theorem C14_compile_never_panics : forall mainnet addr_parse addr_of_string keyhash_of_addr reward_of_addr native_script_ok has_cost_model t,
+  idx32 t = true ->
+  np (compile_tx mainnet addr_parse addr_of_string keyhash_of_addr reward_of_addr native_script_ok has_cost_model t).
+Proof. exact compile_tx_never_panics. Qed.
+(** the reducer, at every fuel and for every set-order oracle, on every IR *)
+Theorem C14_reduce_never_panics : forall pick f e, np (reduce pick f e).
+Proof. exact reduce_never_panics. Qed.
+Theorem C14_tx_reduce_never_panics : forall pick t, np (tx_reduce pick t).
+Proof. exact tx_reduce_never_panics. Qed.
+(** the compiler-op stage, for every chain point and every min_utxo oracle that itself answers *)
+Theorem C14_compiler_ops_never_panic : forall pick c t, (forall i, np (cfg_min_utxo c i)) -> np (tx_visit pick c t).
+Proof. exact tx_visit_never_panics. Qed.
+(** [np] says what it should *)
+Theorem C14_np_is_no_panic : forall A (x : outcome A), np x <-> (forall s, x <> Panic s /\ x <> Overflow s).
+Proof. intros A x. destruct x; cbn; split; try tauto; try (intros _ s0; split; discriminate); intros H; destruct (H site) as [H1 H2]; congruence. Qed.
+
 Print Assumptions C14_hash_construction_total.
 Print Assumptions C14_number_conversions_total.
 Print Assumptions C14_int_arithmetic_total.
 Print Assumptions C14_utxo_refs_total.
+Print Assumptions C14_compile_never_panics.
+Print Assumptions C14_reduce_never_panics.
+Print Assumptions C14_tx_reduce_never_panics.
+Print Assumptions C14_compiler_ops_never_panic.
+Print Assumptions C14_np_is_no_panic.
